@@ -1340,9 +1340,9 @@ func runModel(r *common.Run, apiack bool) {
 			"(the engine never does this; inMemory.savedLogTo guards it with the term check). Oracle here is truth based: every entry the log does not hand " +
 			"out for saving must be in the store with identical content; snapshot restores are not interleaved (commitUpdate's own precondition)")
 	}
-	total := r.Pick(3000, 500000)
+	total := r.Pick(30000, 500000)
 	if apiack {
-		total = r.Pick(1500, 150000)
+		total = r.Pick(15000, 150000)
 	}
 	cases := r.MyCases(total)
 	if r.Replay != "" {
